@@ -819,7 +819,7 @@ impl<'a> Printer<'a> {
                     if !a.braces && a.body.stmts.is_empty() && a.body.tail.is_some() {
                         let t = a.body.tail.as_deref().unwrap();
                         // a tail that itself starts with `{` would be parsed as a block arm
-                        if matches!(t, Expr::Block(_) | Expr::Record(None, _)) {
+                        if starts_with_brace(t) {
                             self.out.push('(');
                             self.expr(t, 0);
                             self.out.push(')');
@@ -850,6 +850,17 @@ impl<'a> Printer<'a> {
             }
             _ => unreachable!(),
         }
+    }
+}
+
+/// does the printed form of `e` start with `{`?
+fn starts_with_brace(e: &Expr) -> bool {
+    match e {
+        Expr::Block(b) => !(b.stmts.is_empty() && b.tail.is_none()),
+        Expr::Record(None, _) => true,
+        Expr::Field(a, _) | Expr::Try(a) | Expr::Method(a, _, _) => starts_with_brace(a),
+        Expr::Bin(_, l, _) => starts_with_brace(l),
+        _ => false,
     }
 }
 
